@@ -34,6 +34,8 @@ def start(pid):
     if not hasattr(sys, "monitoring"):
         return False
     _patterns = [os.path.join(os.path.dirname(env.SRC), f) for f in anchor_files(pid)]
+    if os.environ.get("VERIF_REACH_ALL"):  # tools/reachmap.py: every function of the library, not just the anchored files
+        _patterns = ["*"]
     if not _patterns:
         return False
     mon = sys.monitoring
@@ -60,6 +62,10 @@ def stop(acc):
     mon = sys.monitoring
     mon.set_events(TOOL, 0)
     mon.free_tool_id(TOOL)
+    if os.environ.get("VERIF_REACH_ALL"):
+        with open(os.path.join(os.environ["VERIF_REACH_ALL"], "reach-%d.txt" % os.getpid()), "a") as f:
+            f.write("".join("%s:%s\n" % k for k in sorted(_seen)))
+        return
     acc.extra["anchor_functions_executed"] = sorted("%s:%s" % k for k in _seen if "<" not in k[1])
 
 
